@@ -166,6 +166,9 @@ fn strip_eol(mut b: &[u8]) -> &[u8] {
 
 impl Prop for Unchanged {
     type Case = UCase;
+    fn input_bytes<'a>(&self, c: &'a mut Self::Case) -> Option<&'a mut Vec<u8>> {
+        Some(&mut c.input.0)
+    }
     fn strategy(&self, _tier: Tier) -> BoxedStrategy<UCase> {
         let per = |f: Format| {
             let input = match f {
